@@ -12,7 +12,7 @@ open ShapeFacts
 
 theorem check_iff (v d ny nz k : Int) :
     Pitfall.check v d ny nz k = .ok () ↔
-      1 ≤ v ∧ 1 ≤ d ∧ 1 ≤ ny ∧ 2 ≤ nz ∧ 1 ≤ k ∧ k % 2 = 0 ∧ d ≤ v ∧ v * d % 2 ≠ 1 := by
+      1 ≤ v ∧ 1 ≤ d ∧ 1 ≤ ny ∧ 2 ≤ nz ∧ 1 ≤ k ∧ k % 2 = 0 ∧ d < v ∧ v * d % 2 ≠ 1 := by
   refine ⟨check_ok, ?_⟩
   rintro ⟨h1, h2, h3, h4, h5, h6, h7, h8⟩
   have a1 : ¬ v < 1 := by omega
@@ -21,12 +21,12 @@ theorem check_iff (v d ny nz k : Int) :
   have a4 : ¬ nz < 1 := by omega
   have a5 : ¬ k < 1 := by omega
   have a6 : ¬ nz < 2 := by omega
-  have a7 : ¬ d > v := by omega
+  have a7 : ¬ d ≥ v := by omega
   simp [Pitfall.check, Pitfall.positiveInt, bind, Except.bind, pure, Except.pure, a1, a2, a3, a4, a5, a6, a7, h6, h8]
 
 theorem check_ok_or_valueError (v d ny nz k : Int) :
     Pitfall.check v d ny nz k = .ok () ∨ Pitfall.check v d ny nz k = .error .valueError := by
-  by_cases h : 1 ≤ v ∧ 1 ≤ d ∧ 1 ≤ ny ∧ 2 ≤ nz ∧ 1 ≤ k ∧ k % 2 = 0 ∧ d ≤ v ∧ v * d % 2 ≠ 1
+  by_cases h : 1 ≤ v ∧ 1 ≤ d ∧ 1 ≤ ny ∧ 2 ≤ nz ∧ 1 ≤ k ∧ k % 2 = 0 ∧ d < v ∧ v * d % 2 ≠ 1
   · exact Or.inl ((check_iff v d ny nz k).2 h)
   · right
     simp only [Pitfall.check, Pitfall.positiveInt, bind, Except.bind]
@@ -43,7 +43,7 @@ theorem check_ok_or_valueError (v d ny nz k : Int) :
     by_cases a6 : k % 2 = 0
     · by_cases a7 : nz < 2
       · simp [a1, a2, a3, a4, a5, a6, a7, throw, throwThe, MonadExceptOf.throw]
-      · by_cases a8 : d > v ∨ v * d % 2 = 1
+      · by_cases a8 : d ≥ v ∨ v * d % 2 = 1
         · simp [a1, a2, a3, a4, a5, a6, a7, a8, throw, throwThe, MonadExceptOf.throw]
         · exfalso; apply h
           refine ⟨by omega, by omega, by omega, by omega, by omega, a6, by omega, ?_⟩
